@@ -24,6 +24,13 @@ def main(tier, seed):
     note_program_stats(run, files)
     mism, stats = validate_programs(run, files, "C06", nproc=14, timeout=2400)
     report_mismatches(run, mism)
+    # closures that outlive the run that created them: created over locals of `main`, stored in globals, called by later runs
+    # on the same VM (VmLife.Persist)
+    pf = os.path.join(d, "persist.ndjson")
+    cv(["persist-drive", "--out", pf])
+    validate_traces(run, "VmLifeTrace.tla", dict(Progs='{"p"}'), ["Inv"], [pf], "C06-persist", timeout=600,
+                    site_of=lambda m: str(m.get("event", {}).get("what")))
+    run.notes["closures_called_in_a_later_run"] = sum(1 for l in open(pf) if '"Persist"' in l)
     run.sample(dict(idioms=names))
     run.notes["unspecified_runs"] = stats.get("unspec", 0)
     run.assumptions += ["the reference machine captures variable cells (never stack slots); agreement is evidence about the upvalue mechanism"]
